@@ -503,6 +503,27 @@ class ShapeLifter(Lifter):
                 pass
         if isinstance(s, ast.For):
             return self.for_loop(s, env, fn, depth, owner)
+        if isinstance(s, ast.Expr) and isinstance(s.value, ast.Call) \
+                and isinstance(s.value.func, ast.Attribute) \
+                and s.value.func.attr in ('extend', 'append') \
+                and isinstance(s.value.func.value, (ast.Name, ast.Attribute)) \
+                and len(s.value.args) == 1:
+            # list growth as a statement: `acc.extend(x)` is `acc += x`,
+            # `acc.append(x)` is `acc += [x]`
+            tgt = s.value.func.value
+            cur = self.ev(tgt, env, fn, depth, owner)
+            if isinstance(cur, Arr) and cur.is_list:
+                if s.value.func.attr == 'extend':
+                    val = self.ev(s.value.args[0], env, fn, depth, owner)
+                    if isinstance(val, Arr):
+                        val = Arr(val.axes, is_list=True, parts=val.parts)
+                else:
+                    val = Arr((Ax(1, (('c1', sp.Integer(1)),)),),
+                              is_list=True)
+                new = self._binop(ast.Add(), cur, val) if isinstance(
+                    val, Arr) else TOP
+                self._assign(tgt, new, env, fn, depth, owner)
+                return None
         if isinstance(s, ast.AugAssign):
             cur = self.ev(s.target, env, fn, depth, owner)
             val = self.ev(s.value, env, fn, depth, owner)
@@ -592,17 +613,28 @@ class ShapeLifter(Lifter):
                 env[x.id] = TOP
         accs = {}
         for st in s.body:
-            if isinstance(st, ast.AugAssign) and isinstance(
+            ext = None
+            if isinstance(st, ast.Expr) and isinstance(
+                    st.value, ast.Call) and isinstance(
+                    st.value.func, ast.Attribute) and \
+                    st.value.func.attr == 'extend' and len(
+                        st.value.args) == 1 and isinstance(
+                    st.value.func.value, (ast.Name, ast.Attribute)):
+                ext = (st.value.func.value, st.value.args[0])
+            if ext or (isinstance(st, ast.AugAssign) and isinstance(
                     st.op, ast.Add) and isinstance(
-                    st.target, (ast.Name, ast.Attribute)):
-                cur = env.get(U(st.target))
-                val = self.ev(st.value, env, fn, depth, owner)
+                    st.target, (ast.Name, ast.Attribute))):
+                tgt_, val_ = ext if ext else (st.target, st.value)
+                cur = env.get(U(tgt_))
+                val = self.ev(val_, env, fn, depth, owner)
+                if ext and isinstance(val, Arr):
+                    val = Arr(val.axes, is_list=True, parts=val.parts)
                 if isinstance(cur, Arr) and cur.is_list and isinstance(
                         val, Arr) and val.is_list and ax is not None:
                     blk = Arr((Ax(ax.size * val.axes[0].size,
                                   ax.nest + val.axes[0].nest),),
                               is_list=True)
-                    accs[U(st.target)] = blk if eq(cur.total(), 0) \
+                    accs[U(tgt_)] = blk if eq(cur.total(), 0) \
                         else self.concat([cur, blk])
                     continue
             if isinstance(st, ast.Expr) and isinstance(
